@@ -6,6 +6,10 @@ Case kinds (first token `<mode>.<fault>`):
             sub.SyncPart session machine with a recording handler; compared line by line with the Lean model
   msr.*     the same with the real measure ChunkedSyncHandler on a temp shard (oracle only)
   e2e.*     real SyncStreamingParts <-> real SyncPart over an in-process gRPC pipe with one in-flight fault
+  rde.*     a file reader of the sender fails mid-part (known finding F17B)
+  snd.*     real liaison write-queue shard (measure tsTable: flusher -> syncSnapshot -> executeSyncWithRetry ->
+            FailedPartsHandler -> introduceSync) syncing to N real data nodes with scripted node availability;
+            compared with the Lean queue model
 """
 import zlib
 import vlib
@@ -160,7 +164,7 @@ def rec_case(rng, thorough):
         kind, script = "empty", ["-"]
     else:
         kind, script, _ = one_fault(rng, n, reorder, max_buf, max_gap)
-        if thorough and rng.random() < 0.15:
+        if thorough and script and script != ["-"] and rng.random() < 0.15:
             # second fault on top: drop or duplicate one more delivery position
             p = rng.randrange(len(script))
             if rng.random() < 0.5:
@@ -199,22 +203,71 @@ def e2e_case(rng):
                                               rng.randrange(0, 1000), rng.randrange(0, 4096))
 
 
+def rde_case(rng):
+    """a file reader of the sender fails mid-part (known finding F17B)"""
+    cs = rng.choice([2, 3, 4, 8, 16])
+    parts = rand_layout(rng, cs)
+    cand = [(pi, fi, sz) for pi, (_, _, fs) in enumerate(parts) for fi, (_, sz, _) in enumerate(fs) if sz >= 2]
+    if not cand or len({p[0] for p in parts}) != len(parts):
+        return rde_case(rng)
+    pi, fi, sz = rng.choice(cand)
+    return "rde.%s %d %d %d %d %s %d %d %d" % ("first" if pi == 0 else "later", 1 if rng.random() < 0.7 else 0, cs, rng.choice([0, 0, 1, 3]),
+                                           rng.choice([0, 1]), show_layout(parts), pi, fi, rng.randrange(1, sz))
+
+
+def snd_cases(rng, n):
+    """real liaison write-queue shard syncing to real data nodes; retry delays are wall clock (1 s, 2 s, 4 s)"""
+    out = []
+
+    def line(kind, scripts, quota=0, nparts=1):
+        return "snd.%s %d %s %d %d %d %d %d" % (kind, len(scripts), ",".join(scripts) or "-", quota, rng.randrange(1, 10**6),
+                                            rng.randrange(1, 4), rng.randrange(1, 8), nparts)
+    for _ in range(min(40, max(3, n // 2000))):
+        out.append(line("ok", ["S"] * rng.choice([1, 2, 3]), nparts=rng.choice([1, 1, 2])))
+    for _ in range(min(20, max(2, n // 3000))):
+        sc = ["S"] * rng.choice([1, 2])
+        sc.insert(rng.randrange(len(sc) + 1), rng.choice(["ES", "FS"]))
+        out.append(line("retry1", sc))
+    for _ in range(min(8, max(1, n // 6000))):
+        out.append(line("retry2", [rng.choice(["EES", "EFS", "FES"]), "S"]))
+    for _ in range(min(8, max(1, n // 6000))):
+        out.append(line("preserved", ["S", rng.choice(["E", "F", "EF"])], nparts=rng.choice([1, 1, 2])))
+    for _ in range(min(4, max(1, n // 6000))):
+        out.append(line("lost", [rng.choice(["E", "F"])], quota=1))
+    out.append(line("nonodes", []))
+    return out
+
+
 TOLERATED = {"none", "flipdr", "flipcr", "dup", "swapin"}
 
 
 class C17(vlib.Spec):
     prop = "C17"
     lean_modules = ["Banyan.Props.C17", "Banyan.Tie.C17"]
-    theorems = []
+    theorems = ["Banyan.C17." + t for t in [
+        "chunks_concat", "chunks_stream", "senderChunks_wellformed",
+        "transfer_exact", "transfer_exact_inorder", "installWhole_single",
+        "installed_exact_or_nothing", "complete_implies_exact", "bad_chunk_never_installed",
+        "beyond_window_rejected", "duplicate_ignored", "sequential_rejects_other", "mismatch_keeps_expected",
+        "legacy_mismatch_counterexample", "legacy_drop_counterexample", "legacy_switch_counterexample",
+        "fixed_on_counterexamples",
+        "part_leaves_queue_only_on_success_partial", "part_leaves_queue_counterexample",
+        "sync_without_nodes_keeps_snapshot", "unsynced_part_stays", "cluster_eq_standalone"]] + [
+        "Banyan.Tie.C17." + t for t in [
+            "default_reorder", "default_maxBuf", "default_maxGap", "st_received", "st_mismatch", "st_outOfOrder",
+            "st_noSession", "st_complete", "st_version", "max_retries", "measure_retry_always_nil",
+            "stream_retry_always_nil", "checksum_is_crc32_hex"]]
     go_driver = "c17"
     lean_driver = "C17"
-    counts = {"quick": 6000, "thorough": 200000}
+    counts = {"quick": 6000, "thorough": 150000}
     trusted_base = [
         "Lean 4.33.0 kernel",
         "correspondence check: Go driver hooks/banyand/internal/verifdrv/c17 vs lean_exe drv_c17, line-exact",
         "pbgen-regenerated protobuf/gRPC Go code (clusterv1.SyncPartRequest/Response, generic stream interfaces)",
         "in-memory stream fakes of the driver (refClient, scriptServer) and its recording ChunkedSyncHandler",
         "hash/crc32 = model crc32 (compared on every chunk checksum and every installed file)",
+        "fact extractor tools/extract.d/C17.py (chunk-ordering defaults, SyncStatus codes, retry bound, shape facts)",
+        "fake queue.Client of the driver (scripted node availability; delivery itself runs the real sender/receiver code)",
     ]
     assumptions = [
         "gRPC transport, buffer/retry timing and receiver process restart mid-transfer are not exhibited",
@@ -224,17 +277,23 @@ class C17(vlib.Spec):
             "with several part types), chunk sizes 1..64, reader policies (k bytes per Read, eager/late EOF), receiver "
             "configs (sequential/reordering, buffer 1..10, gap 1..5) x one fault per transfer (none, data bit flip, "
             "checksum flip, each with/without retry, drop, duplicate, displacement inside/outside the window, early "
-            "end, missing completion, unsupported version); non-trivial = every distinct case")
+            "end, missing completion, unsupported version); the same faults on the real measure handler and, in flight, "
+            "between the real gRPC client and server; sender read errors; liaison sync runs over 0-3 data nodes with "
+            "scripted availability (ok / error / rejected, retry success at attempt 1-3, exhaustion, failed-parts quota); "
+            "non-trivial = every distinct case")
 
     def cases(self, rng, n):
         thorough = n > 50000
         out = []
         for _ in range(n // 10):
             out.append(chunks_case(rng))
-        for _ in range(min(n // 25, 4000)):
-            out.append(msr_case(rng))
         for _ in range(min(n // 30, 3000)):
+            out.append(msr_case(rng))
+        for _ in range(min(n // 40, 2500)):
             out.append(e2e_case(rng))
+        for _ in range(n // 40):
+            out.append(rde_case(rng))
+        out.extend(snd_cases(rng, n))
         while len(out) < n:
             out.append(rec_case(rng, thorough))
         return out
@@ -242,6 +301,12 @@ class C17(vlib.Spec):
     # ---- oracle --------------------------------------------------------------------------
 
     def oracle(self, line, g):
+        try:
+            return self.oracle_(line, g)
+        except (ValueError, KeyError, IndexError) as e:
+            return ("violation", "implementation output is malformed (%s: %s): %s" % (type(e).__name__, e, g[:300]))
+
+    def oracle_(self, line, g):
         if g.startswith("PANIC") or g.startswith("CRASH"):
             return ("violation", "implementation crashed: " + g[:300])
         f = line.split()
@@ -254,7 +319,89 @@ class C17(vlib.Spec):
             return self.oracle_msr(f, kind, g)
         if mode == "e2e":
             return self.oracle_e2e(f, kind, g)
+        if mode == "rde":
+            return self.oracle_rde(f, kind, g)
+        if mode == "snd":
+            return self.oracle_snd(f, kind, g)
         return None
+
+    def oracle_snd(self, f, kind, g):
+        kv = dict(t.split("=", 1) for t in g.split() if "=" in t)
+        if "left" not in kv:
+            return ("violation", "unexpected driver output: " + g[:200])
+        nn, quota = int(f[1]), int(f[3])
+        parts, left, failed, delivered = int(kv["parts"]), int(kv["left"]), int(kv["failed"]), kv["delivered"] == "1"
+        if parts != int(f[7]):
+            return ("violation", "liaison flushed %d parts for %s batches" % (parts, f[7]))
+        if kv["nodes"] != "-":
+            for ent in kv["nodes"].split(","):
+                name, _, v = ent.partition("=")
+                have, dirs, junk, snap = (int(x) for x in v.split("/"))
+                if junk or snap != dirs:
+                    return ("violation", "data node %s holds %d part directories that are not byte-equal to a liaison part (%d dirs, %d in snapshot)" % (name, junk, dirs, snap))
+        if nn == 0:
+            if kv["ret"] != "err" or left != parts:
+                return ("violation", "no node to sync to, but ret=%s and %d of %d parts left in the queue" % (kv["ret"], left, parts))
+            return None
+        scripts = f[2].split(",")
+        recoverable = all("S" in sc[:4] or sc[-1] == "S" for sc in scripts)
+        if recoverable and not (delivered and left == 0):
+            return ("violation", "[%s] every node accepts within the retry budget but delivered=%s left=%d" % (kind, kv["delivered"], left))
+        if left < parts and not delivered:
+            # parts left the queue although some node does not hold them
+            if failed == parts - left:
+                return None   # preserved in failed-parts/ for operator-driven retry
+            if quota == 1:
+                return ("known", "F17C", "retries exhausted and the copy into failed-parts/ failed (quota): %d part(s) dropped from the liaison queue, "
+                                         "held by no failed-parts entry (failed=%d) and not by every node" % (parts - left, failed))
+            return ("violation", "[%s] %d part(s) left the liaison queue undelivered and unpreserved (failed-parts has %d)" % (kind, parts - left, failed))
+        return None
+
+    def oracle_rde(self, f, kind, g):
+        parts = parse_layout(f[5])
+        exp = expected_groups(parts)
+        fp = int(f[6])
+        if " inst=" not in g:
+            return ("violation", "unexpected driver output: " + g[:200])
+        kv = dict(t.split("=", 1) for t in g.split() if "=" in t)
+        seg = g.split(" inst=", 1)[1].rsplit(" leak=", 1)[0]
+        inst = [] if seg == "-" else seg.split(";")
+        if kv.get("leak") != "0":
+            return ("violation", "a part handler was neither finished nor closed")
+        failed = [] if kv["failed"] == "-" else kv["failed"].split(",")
+        if failed != [str(parts[fp][0])]:
+            return ("violation", "[rde] sender reports failed parts %s, the failing reader belongs to part %d" % (failed, parts[fp][0]))
+        cs = int(f[2])
+        # stream position at which the read fails, and the parts that had bytes in the discarded chunk buffer
+        pos, spans = 0, []
+        for pi, (pid, _, fs) in enumerate(parts):
+            start = pos
+            for fi, (_, sz, _) in enumerate(fs):
+                if (pi, fi) == (fp, int(f[7])):
+                    fail_pos = pos + int(f[8])
+                pos += sz
+            spans.append((pid, start, pos))
+        involved = {str(pid) for pid, a, b in spans[:fp + 1] if b > fail_pos - cs and b > a}
+        involved.add(str(parts[fp][0]))
+        problems = []
+        by_id = {}
+        for d in inst:
+            by_id.setdefault(d.split("[", 1)[0], []).append(d)
+        for pid, a, b in spans:
+            if a == b:
+                continue
+            want = [e for e in exp if e.split("[", 1)[0] == str(pid)]
+            got = by_id.get(str(pid), [])
+            if str(pid) in failed:
+                if got:
+                    problems.append((str(pid), "reported failed but installed %s" % got))
+            elif got != want:
+                problems.append((str(pid), "not reported failed but receiver holds %s instead of %s" % (got, want)))
+        if not problems:
+            return None
+        if all(pid in involved for pid, _ in problems):
+            return ("known", "F17B", "sender read error mid-part: " + "; ".join("part %s %s" % x for x in problems)[:300])
+        return ("violation", "[rde] parts not involved in the read error are wrong on the receiver: %s" % problems)
 
     def oracle_msr(self, f, kind, g):
         kv = dict(t.split("=", 1) for t in g.split() if "=" in t)
@@ -391,6 +538,9 @@ class C17(vlib.Spec):
     def compare(self, line, g, l):
         if l == "skip":
             return True
+        if line.startswith("snd."):
+            kv = dict(t.split("=", 1) for t in g.split() if "=" in t)
+            return l == "left=%s failed=%s delivered=%s ret=%s" % (kv.get("left"), kv.get("failed"), kv.get("delivered"), kv.get("ret"))
         return g == l
 
     def kind(self, line):
